@@ -108,7 +108,12 @@ fn asset_list(r: &mut Rng, focus: Focus, depth: u32) -> Vec<tir::AssetExpr> {
 
 fn const_data(r: &mut Rng, d: u32) -> E {
     match r.below(if d == 0 { 3 } else { 6 }) {
-        0 => E::Number(r.range(-5, 1000) as i128),
+        0 => E::Number(match r.below(4) {
+            // datum and redeemer integers across the CBOR int / bignum boundary
+            0 => boundary(r),
+            1 => *r.pick(&[(1i128 << 64) + 1, -(1i128 << 64) - 1, -(1i128 << 64) - 2, 1i128 << 100, -(1i128 << 100), i128::MIN + 1, i128::MAX - 1]),
+            _ => r.range(-5, 1000) as i128,
+        }),
         1 => E::Bytes(vec![r.below(4) as u8; r.below(4) as usize]),
         2 => E::Struct(tir::StructExpr { constructor: r.below(3) as usize, fields: vec![] }),
         3 => E::Struct(tir::StructExpr { constructor: r.below(9) as usize, fields: (0..r.below(3)).map(|_| const_data(r, d - 1)).collect() }),
